@@ -245,6 +245,29 @@ def binop(ip, op, a, b):
     raise Unsupported("binop " + op.__name__)
 
 
+def _disjoint_sum(ip, x, y):
+    """x | y == x + y when both are non-negative and, for some k, one is below 2**k while the low k bits of
+    the other are zero: shift-and-or assembling of words, rotations written (v << r) | (v >> (w - r)).
+    The law is lean/BitOps.lean: or_disjoint_law; every side condition is proved on the path (else None)."""
+    st = ip.st
+    if st.feasible(z3.Or(x < 0, y < 0)):
+        return None
+    for small, big in ((y, x), (x, y)):
+        if st.feasible(small >= (1 << 64)):
+            continue
+        lo, hi = 0, 64          # least k in [0, 64] with small < 2**k provable
+        while lo < hi:
+            mid = (lo + hi) // 2
+            if st.feasible(small >= (1 << mid)):
+                lo = mid + 1
+            else:
+                hi = mid
+        if not st.feasible(big % (1 << lo) != 0):
+            st.ghost.setdefault('lemmas_used', set()).add('or_disjoint')
+            return SV(simp(x + y), 'int')
+    return None
+
+
 def _bitop(ip, op, a, b):
     oka, av = concrete_of(a)
     okb, bv = concrete_of(b)
@@ -304,6 +327,10 @@ def _bitop(ip, op, a, b):
         if op is ast.BitOr:
             return SV(simp(x + m - and_e), 'int')
         return SV(simp(x + m - 2 * and_e), 'int')
+    if op is ast.BitOr and not ip.st.merge:
+        r = _disjoint_sum(ip, x, I(b))
+        if r is not None:
+            return r
     # general case: bounded operands through bit-vectors when bounds are known
     w = ip.st.ghost.get('bitwidth')
     if w:
